@@ -64,6 +64,11 @@ pub fn finite_corpus() -> Vec<Grp> {
           vec![cyc(4, &[&[1, 2]]), cyc(4, &[&[2, 3]]), cyc(4, &[&[3, 4]])]),
         g("Coxeter B3", 3, &[&[1, 1], &[2, 2], &[3, 3], &[1, 2, 1, 2, 1, 2], &[2, 3, 2, 3, 2, 3, 2, 3], &[1, 3, 1, 3]], 48,
           vec![cyc(6, &[&[1, 2], &[4, 5]]), cyc(6, &[&[2, 3], &[5, 6]]), cyc(6, &[&[3, 6]])]),
+        // SL(2,3) (order 24), acting on the 8 non-zero vectors of F_3^2; the two presentations differ only in the names of the
+        // generators.  The enumeration of the first one over the trivial subgroup runs into the library's limit of 100 000 rows
+        // (known finding, KNOWN_FINDINGS.txt): definitions are made faster than the coincidences that would collapse them are found
+        g("SL(2,3) <a,b | b a^-1 b a b^-1 a, b^3>", 2, &[&[2, -1, 2, 1, -2, 1], &[2, 2, 2]], 24, vec![vec![8, 4, 1, 6, 5, 2, 7, 3], vec![5, 7, 2, 4, 6, 1, 3, 8]]),
+        g("SL(2,3) <a,b | a b^-1 a b a^-1 b, a^3>", 2, &[&[1, -2, 1, 2, -1, 2], &[1, 1, 1]], 24, vec![vec![5, 7, 2, 4, 6, 1, 3, 8], vec![8, 4, 1, 6, 5, 2, 7, 3]]),
         // presentations with a relator of length one (a generator that is trivial): deductions fill the table out of
         // row-major order, which is what canonicity pruning of PARTIAL tables has to survive
         g("Z4 with a trivial generator", 2, &[&[1], &[2, 2, 2, 2]], 4, vec![cyc(4, &[]), cyc(4, &[&[1, 2, 3, 4]])]),
